@@ -39,6 +39,9 @@ type Variant struct {
 	Store     string            `json:"store,omitempty"`
 	DetOrder  bool              `json:"detOrder,omitempty"`
 	FactsMove bool              `json:"factsMove,omitempty"` // text facts are pre-loaded and vice versa
+	// Again: after the evaluation the same text is parsed and analysed afresh and evaluated a second time on the
+	// same store (which now holds the model, internal relations included): running again must not change anything.
+	Again bool `json:"again,omitempty"`
 	// TemporalBase (temporal programs): the facts are evaluated into a plain TemporalStore first; the rules are then
 	// evaluated with a TeeingTemporalStore over it as the temporal store (the base facts sit in the base layer, the
 	// way the interpreter arranges it).
@@ -327,6 +330,18 @@ func runPlain(g prog.Generated, v Variant) result {
 		}()
 		if err := engine.EvalProgram(out.Info, store, opts...); err != nil {
 			res = result{stage: "eval-error", err: "(evaluation failed)"}
+			return
+		}
+		if v.Again {
+			var again prog.Outcome
+			prog.Analyze(text, &again, nil)
+			if again.ParseErr != nil || again.AnalysisErr != nil || again.Panic != "" {
+				res = result{stage: "analysis-error", err: "second analysis of the same text failed"}
+				return
+			}
+			if err := engine.EvalProgram(again.Info, store, opts...); err != nil {
+				res = result{stage: "eval-error", err: "(second evaluation on the same store failed)"}
+			}
 		}
 	}()
 	if res.stage != "ok" {
@@ -686,6 +701,7 @@ func genVariants(t *rapid.T, preds []string, nRules, nFacts, nDecls int) []Varia
 			FactsAfter: rapid.IntRange(0, nFacts).Draw(t, "shuffleFactsAfter")},
 		{Name: "facts-last", FactsAfter: nFacts, RulePerm: genPerm(t, nRules, "rulePerm3")},
 		{Name: "alpha", Alpha: true},
+		{Name: "again-same-store", Again: true},
 		{Name: "rename-flip", PredMap: genPredMap(t, preds, true)},
 		{Name: "rename-perm", PredMap: genPredMap(t, preds, false)},
 		{Name: "package", Package: "pk"},
